@@ -41,6 +41,12 @@ from pycel.lib.function_info import func_status_msg
 ADDR_FUNCS_NAMES = '_R_', '_C_', '_REF_'
 
 
+def python_str(address):
+    """An address as a python string, a sheet name may hold a double quote"""
+    address = str(address).replace('\\', r'\\').replace('"', r'\"')
+    return f'"{address}"'
+
+
 class FormulaParserError(PyCelException):
     """Error during parsing"""
 
@@ -396,8 +402,8 @@ class RangeNode(OperandNode):
         if isinstance(address, AddressMultiAreaRange):
             return ', '.join(self._emit(value=str(addr)) for addr in address)
         else:
-            template = '_R_("{}")' if address.is_range else '_C_("{}")'
-            return template.format(address)
+            template = '_R_({})' if address.is_range else '_C_({})'
+            return template.format(python_str(address))
 
 
 class FunctionNode(ASTNode):
@@ -489,7 +495,7 @@ class FunctionNode(ASTNode):
     @property
     def _build_reference(self):
         if len(self.children) == 0:
-            address = f'_REF_("{self.cell.address}")'
+            address = f'_REF_({python_str(self.cell.address)})'
         else:
             address = self.children[0].emit
             address = address.replace('_R_', '_REF_').replace('_C_', '_REF_')
@@ -626,7 +632,8 @@ class ExcelFormula:
                     if t.type == 1 and t.string in ADDR_FUNCS_NAMES and (
                             tokens[i + 1].string == '(' and
                             tokens[i + 3].string == ')'):
-                        addrs.append(AddressRange(tokens[i + 2].string[1:-1]))
+                        addrs.append(AddressRange(
+                            ast.literal_eval(tokens[i + 2].string)))
                 self._needed_addresses = uniqueify(addrs)
             else:
                 self._needed_addresses = ()
